@@ -306,6 +306,72 @@ def doc_cells(rows, cols):
   return mk
 
 
+def doc_special_none():
+  """the special value none on every property that has it, under ancestors that set a real value"""
+  L, U = styles.LengthType, styles.LengthType.Units
+  doc = model.ContentDocument()
+  doc.set_lang("en")
+  body, div, p = _simple(doc)
+  Sh = styles.TextShadowType.Shadow
+  p.set_style(SP.TextShadow, styles.TextShadowType((Sh(L(1, U.em), L(2, U.em)),)))
+  p.set_style(SP.TextEmphasis, styles.TextEmphasisType(styles.TextEmphasisType.Style.filled_dot, None, styles.TextEmphasisType.Position.before))
+  p.set_style(SP.RubyReserve, styles.SpecialValues.none)
+  p.set_style(SP.TextOutline, styles.TextOutlineType(L(5, U.pct), styles.NamedColors.red.value))
+  sp = model.Span(doc)
+  sp.set_style(SP.TextShadow, styles.SpecialValues.none)
+  sp.set_style(SP.TextEmphasis, styles.SpecialValues.none)
+  sp.set_style(SP.TextOutline, styles.SpecialValues.none)
+  sp.push_child(model.Text(doc, "A"))
+  p.push_child(sp)
+  sp.add_animation_step(model.DiscreteAnimationStep(SP.TextShadow, Fraction(0), None, styles.SpecialValues.none))
+  s2 = model.Span(doc)
+  s2.push_child(model.Text(doc, "B"))
+  p.push_child(s2)
+  return doc
+
+
+def doc_paddings():
+  """padding shapes: all equal, two equal pairs, before == after only, start == end only, all different"""
+  L, U = styles.LengthType, styles.LengthType.Units
+  doc = model.ContentDocument()
+  doc.set_lang("en")
+  body, div, p = _simple(doc)
+  shapes = [(1, 1, 1, 1), (1, 2, 1, 2), (1, 2, 1, 3), (1, 2, 3, 2), (1, 2, 3, 4)]
+  for k, (b, e, a, st) in enumerate(shapes):
+    r = model.Region("r%d" % k, doc)
+    r.set_style(SP.Padding, styles.PaddingType(before=L(b, U.pct), end=L(e, U.pct), after=L(a, U.pct), start=L(st, U.pct)))
+    r.set_style(SP.ShowBackground, styles.ShowBackgroundType.always)
+    r.set_style(SP.BackgroundColor, styles.NamedColors.red.value)
+    doc.put_region(r)
+  div.set_region(doc.get_region("r2"))
+  sp = model.Span(doc)
+  sp.push_child(model.Text(doc, "A"))
+  p.push_child(sp)
+  return doc
+
+
+def doc_space_nesting():
+  """xml:space default inside preserve and preserve inside default"""
+  doc = model.ContentDocument()
+  doc.set_lang("en")
+  body, div, p = _simple(doc)
+  p.set_space(model.WhiteSpaceHandling.PRESERVE)
+  for txt, space in ((" a  b ", model.WhiteSpaceHandling.PRESERVE), (" c   d ", model.WhiteSpaceHandling.DEFAULT)):
+    sp = model.Span(doc)
+    sp.set_space(space)
+    sp.push_child(model.Text(doc, txt))
+    p.push_child(sp)
+  p2 = model.P(doc)
+  div.push_child(p2)
+  p2.set_space(model.WhiteSpaceHandling.DEFAULT)
+  for txt, space in ((" e  f ", model.WhiteSpaceHandling.PRESERVE), (" g   h ", model.WhiteSpaceHandling.DEFAULT)):
+    sp = model.Span(doc)
+    sp.set_space(space)
+    sp.push_child(model.Text(doc, txt))
+    p2.push_child(sp)
+  return doc
+
+
 def doc_two_shadows():
   L, U = styles.LengthType, styles.LengthType.Units
   doc = model.ContentDocument()
@@ -321,7 +387,8 @@ def doc_two_shadows():
 
 STATIC_DOCS = [("styles", doc_styles), ("ruby-with-delimiters", doc_ruby), ("adjacent-text-nodes", doc_adjacent_text),
                ("partial-decoration", doc_partial_decoration), ("cells-32x24", doc_cells(24, 32)), ("cells-40x15", doc_cells(15, 40)),
-               ("cells-32x15", doc_cells(15, 32)), ("cells-40x24", doc_cells(24, 40)), ("two-shadows", doc_two_shadows)]
+               ("cells-32x15", doc_cells(15, 32)), ("cells-40x24", doc_cells(24, 40)), ("two-shadows", doc_two_shadows),
+               ("special-none", doc_special_none), ("paddings", doc_paddings), ("space-nesting", doc_space_nesting)]
 
 TIMED = [
   ("timed-simple", [["r1", "b e"]], ["body", "", [["div", "r=r1", [["p", "b e", [S("A", "")]], ["p", "b", [S("B", "c=red")]]]]]]),
@@ -354,7 +421,7 @@ class RoundTripHarness(Harness):
   outside = ("numeric style values beyond the menu (they cross a %g formatting boundary that cannot be symbolic)",
              "frames / clock_time_with_frames syntaxes in the structural round trip (their time arithmetic is c05_times)")
   required_witnesses = ("static", "timed")
-  bounds = {"quick": "9 static documents + 3 timed skeletons (millisecond-grid symbolic times, symbolic query time), writer configs {none, clock_time}",
+  bounds = {"quick": "12 static documents + 3 timed skeletons (millisecond-grid symbolic times, symbolic query time), writer configs {none, clock_time}",
             "thorough": "same"}
   budget_s = {"quick": 280, "thorough": 900}
   validate_models = 3
